@@ -415,6 +415,7 @@ func c14LengthNarrowing(p *an.Prog, r *an.Report, rule string) {
 	}
 	sort.Slice(fns, func(i, j int) bool { return an.FnKey(fns[i]) < an.FnKey(fns[j]) })
 	n := 0
+	usedRev := map[string]int{}
 	for _, fn := range fns {
 		k := 0
 		for _, blk := range fn.Blocks {
@@ -441,7 +442,8 @@ func c14LengthNarrowing(p *an.Prog, r *an.Report, rule string) {
 				n++
 				k++
 				pr := b.ProveAt(cv, an.LinConst(dhi).Add(l, -1))
-				if rev, ok := c14NarrowReviewed[an.FnKey(fn)]; ok && !pr.OK && k <= rev.n {
+				if rev, ok := c14NarrowReviewed[an.ShortPkg(an.FnPkgPath(fn))+"|"+cv.Type().String()+"|"+an.ShapeOf(l)]; ok && !pr.OK && usedRev[rev.reason] < rev.n {
+					usedRev[rev.reason]++
 					o := r.Ob(rule+"r", fmt.Sprintf("%s/narrow%d", an.FnKey(fn), k), p.Pos(cv.Pos()), an.Discharged, "not decided by the prover — reviewed: "+rev.reason, append([]string{"value " + l.String()}, pr.Trail...)...)
 					o.Nontrivial = false
 					continue
@@ -460,7 +462,7 @@ var c14NarrowReviewed = map[string]struct {
 	n      int
 	reason string
 }{
-	"(*data.Mapping).Data": {1, "uint16(len(payload)): a Mapping's pairs total at most 65,535 bytes because ValuesToMapping rejects larger sets (C11.M3) and ReadMapping takes them from a 2-byte size field; an invariant across constructors, not visible inside Data()"},
+	"data|uint16|+1*len([]byte from a library call()) +0 >= 0": {1, "Mapping.Data: uint16(len(payload)): a Mapping's pairs total at most 65,535 bytes because ValuesToMapping rejects larger sets (C11.M3) and ReadMapping takes them from a 2-byte size field; an invariant across constructors, not visible inside Data()"},
 }
 
 func typeRangeInt64(t types.Type) (lo, hi int64, ok bool) {
